@@ -21,6 +21,7 @@ type c10Op struct {
 	Profile int    `json:"profile"`
 	Doc     int    `json:"doc"`
 	Yield   int    `json:"yield"` // runtime.Gosched() calls before the operation
+	Cfg     int    `json:"cfg"`   // report configuration used by the *WithConfiguration operations (index into Configs)
 }
 
 type c10Case struct {
@@ -28,6 +29,7 @@ type c10Case struct {
 	Docs       []string  `json:"docs"`
 	Goroutines [][]c10Op `json:"goroutines"`
 	MaxProcs   int       `json:"gomaxprocs"`
+	Configs    []repCfg  `json:"configs"`
 }
 
 var c10Kinds = []string{"Validate", "ValidateWithConfiguration", "CompileProfile", "ValidateCompiled", "ValidateCompiledWithConfiguration", "CompileThenValidate"}
@@ -48,17 +50,30 @@ func genC10(t *rapid.T) c10Case {
 	if rapid.IntRange(0, 3).Draw(t, "badProfile") == 0 {
 		c.Profiles = append(c.Profiles, "profile: broken\nvalidations:\n  v:\n    targetClass: zz.T\n    propertyConstraints: {}\nviolation: [v]\n")
 	}
+	for i := 0; i < 3; i++ {
+		cfg := genRepCfg(t, fmt.Sprintf("cfg%d", i))
+		cfg.ReportIri = fmt.Sprintf("file:///schema-%d/report.yaml", i)
+		cfg.LexIri = fmt.Sprintf("file:///schema-%d/lexical.yaml", i)
+		c.Configs = append(c.Configs, cfg)
+	}
 	ng := rapid.IntRange(2, 8).Draw(t, "goroutines")
 	c.MaxProcs = rapid.SampledFrom([]int{1, 2, 4, 16}).Draw(t, "gomaxprocs")
 	for g := 0; g < ng; g++ {
 		n := rapid.IntRange(1, 4).Draw(t, "opsPerGoroutine")
 		var ops []c10Op
 		for i := 0; i < n; i++ {
-			ops = append(ops, c10Op{Kind: pick(t, c10Kinds, "kind"), Profile: rapid.IntRange(0, len(c.Profiles)-1).Draw(t, "p"), Doc: rapid.IntRange(0, len(c.Docs)-1).Draw(t, "d"), Yield: rapid.IntRange(0, 3).Draw(t, "yield")})
+			ops = append(ops, c10Op{Kind: pick(t, c10Kinds, "kind"), Profile: rapid.IntRange(0, len(c.Profiles)-1).Draw(t, "p"), Doc: rapid.IntRange(0, len(c.Docs)-1).Draw(t, "d"), Yield: rapid.IntRange(0, 3).Draw(t, "yield"), Cfg: rapid.IntRange(0, 2).Draw(t, "cfg")})
 		}
 		c.Goroutines = append(c.Goroutines, ops)
 	}
 	return c
+}
+
+func (c *c10Case) cfg(op c10Op) repCfg {
+	if len(c.Configs) == 0 {
+		return repCfg{Include: true, ReportIri: "file:///dialects/validation-report.yaml", LexIri: "file:///dialects/lexical.yaml", Unix: 981173106}
+	}
+	return c.Configs[op.Cfg%len(c.Configs)]
 }
 
 type c10Result struct {
@@ -74,7 +89,7 @@ func c10Run(op c10Op, c *c10Case, shared []*rego.PreparedEvalQuery) c10Result {
 	case "Validate":
 		r = guard(func() (string, error) { return pkg.Validate(p, d, false, nil) })
 	case "ValidateWithConfiguration":
-		r = validateFixed(p, d)
+		r = validateCfg(p, d, c.cfg(op))
 	case "CompileProfile":
 		q, cc := compileProfile(p)
 		if cc.failed() || q == nil {
@@ -96,12 +111,18 @@ func c10Run(op c10Op, c *c10Case, shared []*rego.PreparedEvalQuery) c10Result {
 		if shared[op.Profile] == nil {
 			return c10Result{err: true}
 		}
-		r = validateCompiledFixed(shared[op.Profile], d)
+		cfg := c.cfg(op)
+		r = guard(func() (string, error) {
+			return pkg.ValidateCompiledWithConfiguration(shared[op.Profile], d, false, nil, cfg.clock(), cfg.report())
+		})
 	}
 	if r.failed() {
 		return c10Result{err: true, panic: r.Panic}
 	}
-	return c10Result{report: dropDate(r.Report)}
+	if op.Kind == "Validate" || op.Kind == "ValidateCompiled" {
+		return c10Result{report: dropDate(r.Report)} // these stamp time.Now()
+	}
+	return c10Result{report: r.Report}
 }
 
 var raceFrame = regexp.MustCompile(`(?m)^\s+(github\.com/aml-org/amf-custom-validator/[^\s(]+)`)
